@@ -80,7 +80,7 @@ def worker(wid, q, results, args, lock):
         assert src[ln] == old
         src[ln] = new
         open(path, "w").write("\n".join(src))
-        rec = {"file": f, "line": ln + 1, "old": old.strip(), "new": new.strip(), "op": what}
+        rec = {"file": f, "line": ln + 1, "old": old.strip(), "new": new.strip(), "op": what, "tag": args.tag}
         try:
             b = sh("%s build ./... " % GO, cwd=wt, timeout=300)
             if b.returncode != 0:
@@ -136,10 +136,16 @@ def main():
     ap.add_argument("--limit", type=int, default=0)
     ap.add_argument("--checks", type=int, default=300)
     ap.add_argument("--skip", type=int, default=0)
+    ap.add_argument("--gen", action="store_true", help="scan the generated files (*_gen.go) instead of the hand-written ones")
+    ap.add_argument("--tests", default="", help="comma-separated list of harness tests (default: all engine tests)")
+    ap.add_argument("--tag", default="", help="label written to the result records")
     args = ap.parse_args()
     files = args.files.split(",") if args.files else sorted(
         os.path.join("ecs", f) for f in os.listdir("/repo/ecs")
-        if f.endswith(".go") and not f.endswith("_test.go") and "_gen" not in f and f not in ("verif_hooks.go", "doc.go"))
+        if f.endswith(".go") and not f.endswith("_test.go") and (("_gen" in f) == args.gen) and f not in ("verif_hooks.go", "doc.go"))
+    if args.tests:
+        global TESTS
+        TESTS = args.tests.split(",")
     cands = candidates(files)
     # deterministic shuffle so that a limited run samples all files
     cands.sort(key=lambda c: hashlib.md5(("%s:%d:%s" % (c[0], c[1], c[4])).encode()).hexdigest())
